@@ -1,11 +1,1022 @@
 /-
-C12 — Every compiled grammar is well-formed GBNF.  (under construction)
+C12 — Every compiled grammar is well-formed GBNF.
+
+Property theorems over the executable model `Octave.Model.Gbnf` of gbnf_compiler.py (tied to the
+source by `Octave.Gen.Gbnf`, regenerated on every run, and by the differential correspondence of
+tools/props/c12.py) and the GBNF syntax `Octave.Spec.GbnfSyntax`.  Helper lemmas live in
+`Octave/Lemmas`.
+
+Main results
+  * `gen_*`                     characterising facts about the generated templates (a changed template
+                                in the source falsifies its fact, and with it the theorems below);
+  * `sanitize_charset`, `sanitize_nonempty`, `sanitize_lowercase`   what `_sanitize_rule_name` guarantees;
+    `sanitize_leading_digit_witness`  (what it does *not* guarantee);
+  * `escape_literal_closed`     `"` ++ escape v ++ `"` is read back as exactly the literal token v;
+  * `fragment_parses`           every constraint kind's fragment is a well-formed rule-body fragment;
+  * `C12_compile_total`         `compile_schema` never raises;
+  * `C12_wellformed_partial`    SchemaOK → ¬KF… → WellFormed (compileSchema …), both envelope settings,
+                                for the lenient name alphabet;
+  * `C12_contract_route`        the META.CONTRACT route compiles the schema rebuilt from the tokens;
+  * negative theorems on the witnesses of F20 F21 F22 F23 C12N1 C12N2.
 -/
-import Octave.Model.Gbnf
-import Octave.Spec.GbnfSyntax
+import Octave.Lemmas.ClassFrag
+import Octave.Lemmas.Strings
+set_option linter.unusedSimpArgs false
 namespace Octave.C12
 open Octave Octave.Gbnf
 
-theorem gen_escapePairs : Gen.escapePairs = [("\\".toList, "\\\\".toList), ("\"".toList, "\\\"".toList)] := by decide
+/-! ## Characterising facts about the generated data -/
+
+theorem gen_sanitize :
+    Gen.sanReplacements = [(".".toList, "_dot_".toList), ("/".toList, "_slash_".toList), ("-".toList, "_".toList)] ∧
+    Gen.sanKeepExtra = "_".toList ∧ Gen.sanUniPrefix = "_u".toList ∧ Gen.sanUniSuffix = "_".toList ∧
+    Gen.sanDigitPrefix = "r_".toList ∧ Gen.sanCollapseFrom = "__".toList ∧ Gen.sanCollapseTo = "_".toList ∧
+    Gen.sanStripChars = "_".toList ∧ Gen.sanFallback = "unnamed_field".toList := by decide
+
+theorem gen_escapePairs :
+    Gen.escapePairs = [("\\".toList, "\\\\".toList), ("\"".toList, "\\\"".toList)] := by decide
+
+theorem gen_dispatch :
+    Gen.dispatch = [(.req, .required), (.opt, .optional), (.enum, .enum), (.const, .const), (.type, .type),
+      (.regex, .regex), (.dir, .dir), (.appendOnly, .list), (.range, .range), (.maxLen, .maxLength),
+      (.minLen, .minLength), (.date, .date), (.iso8601, .iso8601)] := by decide
+
+theorem gen_enumConst :
+    Gen.enumQuoteTpl = [.lit "\"".toList, .var 0, .lit "\"".toList] ∧ Gen.enumJoiner = " | ".toList ∧
+    Gen.enumWrapTpl = [.lit "(".toList, .var 0, .lit ")".toList] ∧
+    Gen.constTpl = [.lit "\"".toList, .var 0, .lit "\"".toList] := by decide
+
+theorem gen_regex :
+    Gen.regexSimpleTpl = [.lit "[".toList, .var 0, .lit "]".toList, .var 1] ∧
+    Gen.regexDefaultQuantifier = "+".toList ∧
+    Gen.regexSimplePattern = "^\\[([^\\]]+)\\]([+*?]?)$".toList ∧
+    Gen.regexLstrip = "^".toList ∧ Gen.regexRstrip = "$".toList ∧
+    Gen.regexUnsupported = ["(?", "\\b", "\\B", "\\d", "\\w", "\\s", "\\D", "\\W", "\\S"].map String.toList ∧
+    Gen.regexDotFrom = ".".toList ∧ Gen.regexDotTo = "[^\\n]".toList ∧
+    Gen.regexDegenerate = ["+", "*", "?"].map String.toList := by decide
+
+/-- every constant fragment the compiler can emit is a well-formed rule-body fragment without references -/
+theorem gen_constant_fragments :
+    ∀ f ∈ [Gen.unknownFragment, Gen.emptyChainFragment, Gen.requiredFragment, Gen.optionalFragment, Gen.typeDefault,
+           Gen.regexDegrade, Gen.regexDegenerateFragment, Gen.dirFragment, Gen.listFragment, Gen.rangeFragment,
+           Gen.maxLengthFragment, Gen.minLengthGeFragment, Gen.minLengthLtFragment, Gen.dateFragment,
+           Gen.schemaNoPattern] ++ Gen.typePatterns.map (·.2),
+      fragCheck f = some [] := by decide +kernel
+
+theorem gen_iso8601_fragment : fragCheck Gen.iso8601Fragment = some [] := by decide +kernel
+
+theorem gen_schema_templates :
+    Gen.schemaHeader = [[.lit "# GBNF Grammar for OCTAVE schema: ".toList, .var 0], [], [.lit "ws ::= [ \\t\\n]*".toList], []] ∧
+    Gen.schemaFieldRuleTpl = [.var 0, .lit " ::= \"".toList, .var 1, .lit "\" \"::\" ws ".toList, .var 2] ∧
+    Gen.schemaAfterFields = [] ∧ Gen.schemaRefsJoiner = " | ".toList ∧
+    Gen.schemaWithFields = [[.lit "field ::= (".toList, .var 0, .lit ")".toList], [.lit "content ::= (field ws)*".toList]] ∧
+    Gen.schemaWithoutFields = [[.lit "content ::= [^\\n]*".toList]] ∧ Gen.schemaAfterContent = [] ∧
+    Gen.schemaEnvelope = [[.lit "envelope-start ::= \"===".toList, .var 0, .lit "===\"".toList],
+      [.lit "envelope-end ::= \"===END===\"".toList], [], [.lit "meta-block ::= \"META:\" ws meta-content".toList],
+      [.lit "meta-content ::= (meta-field ws)*".toList], [.lit "meta-field ::= [A-Z_]+ \"::\" ws [^\\n]+".toList], [],
+      [.lit "document ::= envelope-start ws meta-block ws content ws envelope-end".toList]] ∧
+    Gen.schemaNoEnvelope = [[.lit "document ::= content".toList]] ∧
+    Gen.schemaTail = [[], [.lit "root ::= document".toList]] ∧ Gen.schemaLineJoiner = "\n".toList := by decide
+
+/-! ## `_sanitize_rule_name` -/
+
+theorem sanDigit_forall (P : Char → Prop) (s : Str) (hs : ∀ c ∈ s, P c) (hp : ∀ c ∈ Gen.sanDigitPrefix, P c) :
+    ∀ c ∈ sanDigit s, P c := by
+  cases s with
+  | nil => simpa [sanDigit] using hs
+  | cons d r =>
+    intro c hc
+    unfold sanDigit at hc
+    simp only at hc
+    split at hc
+    · rcases List.mem_append.mp hc with h | h
+      · exact hp c h
+      · exact hs c h
+    · exact hs c hc
+
+/-- generic invariant of the sanitiser: a predicate that holds for the characters the loop keeps, for
+the characters of the constant pieces and for lower-case hexadecimal digits holds for the result. -/
+theorem sanitize_forall (P : Char → Prop) (lowered : Str)
+    (hkeep : ∀ c ∈ sanReplace lowered, isAscii c = true → (isAsciiAlnum c = true ∨ c = '_') → P c)
+    (hconst : ∀ c ∈ "_ur_unnamed_field".toList, P c) (hhex : ∀ d, d < 16 → P (Nat.digitChar d)) :
+    ∀ c ∈ sanitize lowered, P c := by
+  obtain ⟨_, hk, hup, hus, hdp, _, hct, _, hfb⟩ := gen_sanitize
+  have s1 : ∀ c ∈ "_u".toList, c ∈ "_ur_unnamed_field".toList := by decide
+  have s2 : ∀ c ∈ "_".toList, c ∈ "_ur_unnamed_field".toList := by decide
+  have s3 : ∀ c ∈ "r_".toList, c ∈ "_ur_unnamed_field".toList := by decide
+  have s4 : ∀ c ∈ "unnamed_field".toList, c ∈ "_ur_unnamed_field".toList := by decide
+  -- the per-character loop
+  have h1 : ∀ c ∈ sanLoop (sanReplace lowered), P c := by
+    intro c hcm
+    obtain ⟨a, ha, hca⟩ := List.mem_flatMap.mp hcm
+    unfold sanitizeChar at hca
+    split at hca
+    · rename_i hcond
+      simp only [List.mem_singleton] at hca
+      subst hca
+      simp only [Bool.and_eq_true, Bool.or_eq_true] at hcond
+      refine hkeep c ha hcond.1 ?_
+      rcases hcond.2 with h | h
+      · exact Or.inl h
+      · right
+        rw [hk] at h
+        simpa using h
+    · split at hca
+      · rw [hup, hus] at hca
+        simp only [List.mem_append] at hca
+        rcases hca with (h | h) | h
+        · exact hconst c (s1 c h)
+        · exact toDigitsCore_forall P hhex _ _ _ (by simp) c h
+        · exact hconst c (s2 c h)
+      · simp at hca
+  have h2 : ∀ c ∈ sanDigit (sanLoop (sanReplace lowered)), P c :=
+    sanDigit_forall P _ h1 (by rw [hdp]; exact fun c h => hconst c (s3 c h))
+  have h3 : ∀ c ∈ sanCollapse (sanDigit (sanLoop (sanReplace lowered))), P c := by
+    intro d hd
+    unfold sanCollapse at hd
+    cases hcl : collapseLoop (sanDigit (sanLoop (sanReplace lowered))).length (sanDigit (sanLoop (sanReplace lowered))) with
+    | none => rw [hcl] at hd; exact h2 d hd
+    | some r =>
+      rw [hcl] at hd
+      exact collapseLoop_forall P (by rw [hct]; exact fun c h => hconst c (s2 c h)) _ _ r h2 hcl d hd
+  intro c hcm
+  unfold sanitize at hcm
+  simp only at hcm
+  split at hcm
+  · rw [hfb] at hcm; exact hconst c (s4 c hcm)
+  · exact stripChars_forall P _ _ h3 c hcm
+
+/-- **sanitize_charset.**  Whatever the field name, the rule name consists of GBNF name characters under
+the lenient alphabet (`[a-zA-Z0-9_]`; never a `-`). -/
+theorem sanitize_charset (lowered : Str) :
+    ∀ c ∈ sanitize lowered, isWordChar true c = true ∧ c ≠ '-' := by
+  apply sanitize_forall
+  · intro c _ _ h
+    rcases h with h | h
+    · unfold isAsciiAlnum at h
+      constructor
+      · simp only [isWordChar, Bool.or_eq_true] at h ⊢; exact Or.inl (Or.inl h)
+      · intro hc; subst hc; simp [isLower, isUpper, isDigit] at h
+    · subst h; decide
+  · decide
+  · intro d hd
+    have : ∀ k : Fin 16, isWordChar true (Nat.digitChar k.val) = true ∧ Nat.digitChar k.val ≠ '-' := by decide
+    exact this ⟨d, hd⟩
+
+/-- … and it is never empty. -/
+theorem sanitize_nonempty (lowered : Str) : sanitize lowered ≠ [] := by
+  unfold sanitize
+  simp only
+  split
+  · rw [gen_sanitize.2.2.2.2.2.2.2.2]; decide
+  · rename_i h; intro h'; rw [h'] at h; simp at h
+
+/-- If the lowered name has no ASCII upper-case letter (which `str.lower()` guarantees), the rule name is
+in `[a-z0-9_]`. -/
+theorem sanitize_lowercase (lowered : Str) (hl : ∀ c ∈ lowered, isUpper c = false) :
+    ∀ c ∈ sanitize lowered, isLower c = true ∨ isDigit c = true ∨ c = '_' := by
+  apply sanitize_forall
+  · intro c hc _ h
+    have hnu : isUpper c = false := by
+      unfold sanReplace at hc
+      rw [gen_sanitize.1] at hc
+      simp only [List.foldl_cons, List.foldl_nil] at hc
+      refine replaceAll_forall (fun c => isUpper c = false) _ _ _ (by decide) ?_ c hc
+      refine replaceAll_forall (fun c => isUpper c = false) _ _ _ (by decide) ?_
+      exact replaceAll_forall (fun c => isUpper c = false) _ _ _ (by decide) hl
+    rcases h with h | h
+    · unfold isAsciiAlnum at h
+      simp only [Bool.or_eq_true, hnu, Bool.false_eq_true, or_false] at h
+      rcases h with h | h
+      · exact Or.inl h
+      · exact Or.inr (Or.inl h)
+    · exact Or.inr (Or.inr h)
+  · decide
+  · intro d hd
+    have : ∀ k : Fin 16, isLower (Nat.digitChar k.val) = true ∨ isDigit (Nat.digitChar k.val) = true ∨ Nat.digitChar k.val = '_' := by decide
+    exact this ⟨d, hd⟩
+
+/-- What the code does **not** guarantee although its comment says so: the name can start with a digit
+(the `r_` prefix is added before the leading underscore is stripped). -/
+theorem sanitize_leading_digit_witness : sanitize "_1".toList = "1".toList := by decide
+
+example : sanitize "a.b/c-d".toList = "a_dot_b_slash_c_d".toList := by decide
+example : sanitize "naïve".toList = "na_uef_ve".toList := by decide
+example : sanitize "9x".toList = "r_9x".toList := by decide
+example : sanitize "___".toList = "unnamed_field".toList := by decide
+
+/-! ## `_escape_literal` -/
+
+theorem escapeLiteral_eq (v : Str) : escapeLiteral v = v.flatMap esc1 := by
+  unfold escapeLiteral
+  rw [gen_escapePairs]
+  simp only [List.foldl_cons, List.foldl_nil]
+  have e1 : "\\".toList = ['\\'] := by decide
+  have e2 : "\"".toList = ['"'] := by decide
+  rw [e1, e2, replaceAll_single, replaceAll_single, List.flatMap_assoc]
+  congr 1
+  funext c
+  unfold esc1
+  by_cases h1 : c = '\\'
+  · subst h1; decide
+  · by_cases h2 : c = '"'
+    · subst h2; decide
+    · simp [h1, h2]
+
+/-- **escape_literal_closed.**  For *every* string `v` (quotes, backslashes and raw newlines included),
+the text `"` ++ `_escape_literal(v)` ++ `"` read from between tokens is exactly one literal token, whose
+content is `v`, and the lexer is between tokens again: the escaped text contains no unescaped quote and
+leaves no dangling escape.  A newline in `v` is pasted raw; inside a GBNF literal it stands for itself. -/
+theorem escape_literal_closed (v : Str) (toks : List Tok) :
+    lexRun true ⟨.top, toks⟩ ('"' :: escapeLiteral v ++ ['"']) = ⟨.top, .lit v :: toks⟩ := by
+  rw [escapeLiteral_eq]
+  exact lex_quoteLit v toks
+
+example : escapeLiteral "a\"b\\c\nd".toList = "a\\\"b\\\\c\nd".toList := by decide
+
+/-! ## fragments -/
+
+/-- what the schema reader guarantees about a constraint, as far as the grammar needs it -/
+def constraintOK : Constraint → Bool
+  | .enum vals => !vals.isEmpty          -- `ENUM[...]` always has at least one member (`"".split(",")` is `[""]`)
+  | _ => true
+
+/-- **F22 class predicate** (negated): the REGEX pattern is *translated* rather than pasted — it degrades to
+the permissive fragment, or has the simple `[class]q` shape with a class body free of backslashes (and
+not just `^`), or is degenerate. -/
+def regexSafe (pat : Str) : Bool :=
+  let p := rstripChars Gen.regexRstrip (lstripChars Gen.regexLstrip pat)
+  if Gen.regexUnsupported.any (fun u => isInfixOf u p) then true
+  else match simpleClassMatch p with
+    | some (body, _) => !body.contains '\\' && body != ['^']
+    | none =>
+      let r := replaceAll Gen.regexDotFrom Gen.regexDotTo p
+      r.isEmpty || Gen.regexDegenerate.contains r
+
+def constraintSafe : Constraint → Bool
+  | .regex p => regexSafe p
+  | _ => true
+
+theorem constFrag {f : Str} (h : f ∈ [Gen.unknownFragment, Gen.emptyChainFragment, Gen.requiredFragment, Gen.optionalFragment, Gen.typeDefault,
+           Gen.regexDegrade, Gen.regexDegenerateFragment, Gen.dirFragment, Gen.listFragment, Gen.rangeFragment,
+           Gen.maxLengthFragment, Gen.minLengthGeFragment, Gen.minLengthLtFragment, Gen.dateFragment,
+           Gen.schemaNoPattern] ++ Gen.typePatterns.map (·.2)) : FragOK f [] :=
+  fragOK_of_check (gen_constant_fragments f h)
+
+theorem lookupStr_mem (k : Str) : ∀ (l : List (Str × Str)) (v : Str), lookupStr k l = some v → v ∈ l.map (·.2) := by
+  intro l
+  induction l with
+  | nil => intro v h; simp [lookupStr] at h
+  | cons a r ih =>
+    intro v h
+    obtain ⟨x, y⟩ := a
+    simp only [lookupStr] at h
+    split at h
+    · cases h; simp
+    · simp [ih v h]
+
+theorem mem_takeWhile_imp (p : Char → Bool) : ∀ (l : Str) (c : Char), c ∈ l.takeWhile p → p c = true := by
+  intro l
+  induction l with
+  | nil => intro c h; simp at h
+  | cons a r ih =>
+    intro c h
+    simp only [List.takeWhile] at h
+    split at h
+    · rcases List.mem_cons.mp h with h1 | h1
+      · subst h1; assumption
+      · exact ih c h1
+    · simp at h
+
+theorem simpleClassMatch_spec {p body q : Str} (h : simpleClassMatch p = some (body, q)) :
+    body ≠ [] ∧ (∀ c ∈ body, c ≠ ']') ∧ (q = [] ∨ ∃ c, q = [c] ∧ isQuant c) := by
+  unfold simpleClassMatch at h
+  split at h
+  · rename_i rest
+    simp only at h
+    split at h
+    · cases h
+    · rename_i hne
+      have hb : ∀ c ∈ rest.takeWhile (· != ']'), c ≠ ']' := by
+        intro c hc
+        have := mem_takeWhile_imp _ _ c hc
+        simpa using this
+      split at h
+      · split at h
+        · cases h; exact ⟨by simpa using hne, hb, Or.inl rfl⟩
+        · cases h; exact ⟨by simpa using hne, hb, Or.inl rfl⟩
+        · split at h
+          · rename_i qc hq
+            cases h
+            refine ⟨by simpa using hne, hb, Or.inr ⟨_, rfl, ?_⟩⟩
+            simp only [Bool.or_eq_true, beq_iff_eq] at hq
+            unfold isQuant
+            rcases hq with (h | h) | h
+            · exact Or.inl h
+            · exact Or.inr (Or.inl h)
+            · exact Or.inr (Or.inr h)
+          · cases h
+        · split at h
+          · rename_i qc hq
+            cases h
+            refine ⟨by simpa using hne, hb, Or.inr ⟨_, rfl, ?_⟩⟩
+            simp only [Bool.or_eq_true, beq_iff_eq] at hq
+            unfold isQuant
+            rcases hq with (h | h) | h
+            · exact Or.inl h
+            · exact Or.inr (Or.inl h)
+            · exact Or.inr (Or.inr h)
+          · cases h
+        · cases h
+      · cases h
+  · cases h
+
+theorem regex_fragment (pat : Str) (hs : regexSafe pat = true) : FragOK (compileRegex pat) [] := by
+  unfold regexSafe at hs
+  unfold compileRegex
+  simp only at hs ⊢
+  split
+  · exact constFrag (by simp)
+  · rename_i hu
+    simp only [hu, Bool.false_eq_true, if_false] at hs
+    split
+    · rename_i body q hm
+      rw [hm] at hs
+      simp only [Bool.and_eq_true, Bool.not_eq_true', bne_iff_ne, ne_eq] at hs
+      obtain ⟨hb1, hb2, hq⟩ := simpleClassMatch_spec hm
+      have hplain : ClsPlain body := by
+        intro c hc
+        refine ⟨hb2 c hc, ?_⟩
+        intro h; subst h
+        have := hs.1
+        simp [List.contains_iff_mem] at this
+        exact this hc
+      obtain ⟨htpl, hdq, _⟩ := gen_regex
+      rw [htpl, hdq]
+      rcases hq with hq | ⟨c, hq, hc⟩
+      · subst hq
+        have := fragOK_class body '+' hplain hb1 hs.2 (Or.inl rfl)
+        simpa [render] using this
+      · subst hq
+        have := fragOK_class body c hplain hb1 hs.2 hc
+        simpa [render] using this
+    · rename_i hm
+      rw [hm] at hs
+      simp only at hs
+      simp only [hs, if_true]
+      exact constFrag (by simp)
+
+/-- **fragment_parses.**  The fragment compiled for any single constraint of any of the kinds
+(REQ OPT ENUM CONST TYPE REGEX DIR APPEND_ONLY RANGE MAX_LENGTH MIN_LENGTH DATE ISO8601, and the permissive
+fragment for anything else) is a well-formed piece of a rule body: it lexes from between tokens to
+between tokens, contains no reference, leaves a non-empty alternative and no empty alternative —
+provided an ENUM has a member and a REGEX is translated rather than pasted (finding F22). -/
+theorem fragment_parses (c : Constraint) (hok : constraintOK c = true) (hsafe : constraintSafe c = true) :
+    ∃ frag, compileConstraint c = some frag ∧ FragOK frag [] := by
+  obtain ⟨hq, hj, hw, hct⟩ := gen_enumConst
+  cases c with
+  | req => exact ⟨Gen.requiredFragment, by simp [compileConstraint, gen_dispatch, lookupMethod, Constraint.kind, runMethod], constFrag (by simp)⟩
+  | opt => exact ⟨Gen.optionalFragment, by simp [compileConstraint, gen_dispatch, lookupMethod, Constraint.kind, runMethod], constFrag (by simp)⟩
+  | dir => exact ⟨Gen.dirFragment, by simp [compileConstraint, gen_dispatch, lookupMethod, Constraint.kind, runMethod], constFrag (by simp)⟩
+  | appendOnly => exact ⟨Gen.listFragment, by simp [compileConstraint, gen_dispatch, lookupMethod, Constraint.kind, runMethod], constFrag (by simp)⟩
+  | range => exact ⟨Gen.rangeFragment, by simp [compileConstraint, gen_dispatch, lookupMethod, Constraint.kind, runMethod], constFrag (by simp)⟩
+  | maxLen => exact ⟨Gen.maxLengthFragment, by simp [compileConstraint, gen_dispatch, lookupMethod, Constraint.kind, runMethod], constFrag (by simp)⟩
+  | date => exact ⟨Gen.dateFragment, by simp [compileConstraint, gen_dispatch, lookupMethod, Constraint.kind, runMethod], constFrag (by simp)⟩
+  | iso8601 => exact ⟨Gen.iso8601Fragment, by simp [compileConstraint, gen_dispatch, lookupMethod, Constraint.kind, runMethod], fragOK_of_check gen_iso8601_fragment⟩
+  | other => exact ⟨Gen.unknownFragment, by simp [compileConstraint, gen_dispatch, lookupMethod, Constraint.kind], constFrag (by simp)⟩
+  | minLen n =>
+    refine ⟨_, by simp [compileConstraint, gen_dispatch, lookupMethod, Constraint.kind, runMethod]; rfl, ?_⟩
+    split
+    · exact constFrag (by simp)
+    · exact constFrag (by simp)
+  | type t =>
+    refine ⟨compileType t, by simp [compileConstraint, gen_dispatch, lookupMethod, Constraint.kind, runMethod], ?_⟩
+    unfold compileType
+    cases h : lookupStr t Gen.typePatterns with
+    | none => exact constFrag (by simp)
+    | some v => exact constFrag (by simp [lookupStr_mem t _ v h])
+  | regex p =>
+    exact ⟨compileRegex p, by simp [compileConstraint, gen_dispatch, lookupMethod, Constraint.kind, runMethod], regex_fragment p hsafe⟩
+  | const v =>
+    refine ⟨compileConst v, by simp [compileConstraint, gen_dispatch, lookupMethod, Constraint.kind, runMethod], ?_⟩
+    unfold compileConst
+    rw [hct, escapeLiteral_eq]
+    have := fragOK_const v
+    simpa [render] using this
+  | enum vals =>
+    refine ⟨compileEnum vals, by simp [compileConstraint, gen_dispatch, lookupMethod, Constraint.kind, runMethod], ?_⟩
+    have hne : vals ≠ [] := by
+      intro h; subst h; simp [constraintOK] at hok
+    unfold compileEnum
+    rw [hq, hj, hw]
+    have hmap : (vals.map fun v => render [.lit "\"".toList, .var 0, .lit "\"".toList] [escapeLiteral v]) = vals.map quoteLit := by
+      apply List.map_congr_left
+      intro v _
+      simp [render, quoteLit, escapeLiteral_eq]
+    rw [hmap]
+    have := fragOK_enum vals hne
+    simpa [render] using this
+
+/-! ## chains -/
+
+theorem firstOfKinds_mem (ks : List Kind) : ∀ (cs : List Constraint) (c : Constraint), firstOfKinds ks cs = some c → c ∈ cs := by
+  intro cs
+  induction cs with
+  | nil => intro c h; simp [firstOfKinds] at h
+  | cons a r ih =>
+    intro c h
+    simp only [firstOfKinds] at h
+    split at h
+    · cases h; simp
+    · simp [ih c h]
+
+theorem pickByPriority_mem : ∀ (ps : List (List Kind)) (cs : List Constraint) (c : Constraint),
+    pickByPriority ps cs = some c → c ∈ cs := by
+  intro ps
+  induction ps with
+  | nil => intro cs c h; simp [pickByPriority] at h
+  | cons k r ih =>
+    intro cs c h
+    simp only [pickByPriority] at h
+    split at h
+    · rename_i c' hc'; cases h; exact firstOfKinds_mem k cs c hc'
+    · exact ih cs c h
+
+theorem deciding_mem (cs : List Constraint) (c : Constraint) (h : deciding cs = some c) : c ∈ cs := by
+  unfold deciding at h
+  split at h
+  · cases h
+  · rename_i c0 r
+    simp only [Option.some.injEq] at h
+    cases hp : pickByPriority Gen.chainPriority (c0 :: r) with
+    | none => rw [hp] at h; simp at h; subst h; simp
+    | some c' => rw [hp] at h; simp at h; subst h; exact pickByPriority_mem _ _ _ hp
+
+/-! ## known-finding class predicates (decidable, over the *input*) and what the reader guarantees -/
+
+/-- what the schema reader guarantees: every ENUM has at least one member -/
+def SchemaOK (fields : List Field) : Bool :=
+  fields.all fun f => match f.chain with
+    | some cs => cs.all constraintOK
+    | none => true
+
+def structuralNames : List Str := ["ws", "field", "content", "document", "root"].map String.toList
+
+/-- **F20**: a field whose rule name equals a structural rule name -/
+def KF_structural (fields : List Field) : Bool := fields.any fun f => structuralNames.contains f.ruleName
+/-- **F21**: two fields with the same rule name (`_sanitize_rule_name` is not injective) -/
+def KF_collision (fields : List Field) : Prop := ¬ (fields.map Field.ruleName).Nodup
+/-- **F22**: a field decided by a REGEX whose pattern is pasted rather than translated -/
+def chainSafe (f : Field) : Bool :=
+  match f.chain with
+  | some cs => (match deciding cs with
+    | some c => constraintSafe c
+    | none => true)
+  | none => true
+def KF_regexPaste (fields : List Field) : Bool := fields.any fun f => !chainSafe f
+/-- **C12N1**: a field name with a quote or a backslash (pasted unescaped into the rule's literal) -/
+def KF_fieldNameUnescaped (fields : List Field) : Bool := fields.any fun f => f.name.contains '"' || f.name.contains '\\'
+/-- **C12N2**: a schema name with a line break (header comment) or, with envelope, a quote or backslash -/
+def KF_schemaNameUnescaped (name upper : Str) (envelope : Bool) : Bool :=
+  name.contains '\n' || name.contains '\r' || (envelope && (upper.contains '"' || upper.contains '\\'))
+
+/-! ## lines -/
+
+theorem fieldLine_ok (f : Field) (hok : (match f.chain with | some cs => cs.all constraintOK | none => true) = true)
+    (hsafe : chainSafe f = true) (hname : (f.name.contains '"' || f.name.contains '\\') = false) :
+    ∃ l, fieldLine f = some l ∧ LineOK l [f.ruleName] ["ws".toList] := by
+  have hpat : ∃ pat, fieldPattern f = some pat ∧ FragOK pat [] := by
+    unfold fieldPattern
+    unfold chainSafe at hsafe
+    cases hch : f.chain with
+    | none => exact ⟨Gen.schemaNoPattern, rfl, constFrag (by simp)⟩
+    | some cs =>
+      rw [hch] at hok hsafe
+      simp only at hok hsafe ⊢
+      unfold compileChain
+      cases hd : deciding cs with
+      | none => exact ⟨Gen.emptyChainFragment, rfl, constFrag (by simp)⟩
+      | some c =>
+        rw [hd] at hsafe
+        have hcok : constraintOK c = true := List.all_eq_true.mp hok c (deciding_mem cs c hd)
+        exact fragment_parses c hcok hsafe
+  obtain ⟨pat, hp, hfrag⟩ := hpat
+  refine ⟨render Gen.schemaFieldRuleTpl [f.ruleName, f.name, pat], by simp [fieldLine, hp], ?_⟩
+  rw [gen_schema_templates.2.1]
+  have hn : ∀ c ∈ f.name, c ≠ '"' ∧ c ≠ '\\' := by
+    intro c hc
+    simp only [Bool.or_eq_false_iff] at hname
+    constructor
+    · intro h; subst h; have := hname.1; simp [List.contains_iff_mem] at this; exact this hc
+    · intro h; subst h; have := hname.2; simp [List.contains_iff_mem] at this; exact this hc
+  have := lineOK_field f.ruleName f.name pat [] (sanitize_nonempty f.lowered)
+    (fun c hc => (sanitize_charset f.lowered c hc).1) hn hfrag
+  simpa [render, Field.ruleName] using this
+
+theorem fieldLines_ok : ∀ (fields : List Field), SchemaOK fields = true → KF_regexPaste fields = false →
+    KF_fieldNameUnescaped fields = false →
+    ∃ xs : List (Str × List Str × List Str), fieldLines fields = some (xs.map (·.1)) ∧
+      (∀ x ∈ xs, LineOK x.1 x.2.1 x.2.2) ∧
+      xs.flatMap (fun x => x.2.1.reverse) = fields.map Field.ruleName ∧
+      (∀ r ∈ xs.flatMap (fun x => x.2.2.reverse), r = "ws".toList) := by
+  intro fields
+  induction fields with
+  | nil => intro _ _ _; exact ⟨[], rfl, by simp, rfl, by simp⟩
+  | cons f r ih =>
+    intro hok h22 hn1
+    simp only [SchemaOK, List.all_cons, Bool.and_eq_true] at hok
+    simp only [KF_regexPaste, List.any_cons, Bool.or_eq_false_iff, Bool.not_eq_false'] at h22
+    simp only [KF_fieldNameUnescaped, List.any_cons, Bool.or_eq_false_iff] at hn1
+    obtain ⟨l, hl, hlo⟩ := fieldLine_ok f hok.1 h22.1 (by rw [hn1.1.1, hn1.1.2]; rfl)
+    obtain ⟨xs, hxs, hall, hnames, hrefs⟩ := ih hok.2 h22.2 hn1.2
+    refine ⟨(l, [f.ruleName], ["ws".toList]) :: xs, ?_, ?_, ?_, ?_⟩
+    · simp [fieldLines, hl, hxs]
+    · intro x hx
+      rcases List.mem_cons.mp hx with h | h
+      · subst h; exact hlo
+      · exact hall x h
+    · simp [hnames]
+    · intro r hr
+      simp only [List.flatMap_cons, List.reverse_cons, List.reverse_nil, List.nil_append, List.mem_append,
+        List.mem_singleton] at hr
+      rcases hr with h | h
+      · exact h
+      · exact hrefs r h
+
+theorem lineCheck_blank : lineCheck [] = some ([], []) := by decide
+theorem lineCheck_ws : lineCheck "ws ::= [ \\t\\n]*".toList = some (["ws".toList], []) := by decide
+theorem lineCheck_content0 : lineCheck "content ::= [^\\n]*".toList = some (["content".toList], []) := by decide
+theorem lineCheck_content1 : lineCheck "content ::= (field ws)*".toList = some (["content".toList], ["ws".toList, "field".toList]) := by decide
+theorem lineCheck_envEnd : lineCheck "envelope-end ::= \"===END===\"".toList = some (["envelope-end".toList], []) := by decide
+theorem lineCheck_metaBlock : lineCheck "meta-block ::= \"META:\" ws meta-content".toList = some (["meta-block".toList], ["meta-content".toList, "ws".toList]) := by decide
+theorem lineCheck_metaContent : lineCheck "meta-content ::= (meta-field ws)*".toList = some (["meta-content".toList], ["ws".toList, "meta-field".toList]) := by decide
+theorem lineCheck_metaField : lineCheck "meta-field ::= [A-Z_]+ \"::\" ws [^\\n]+".toList = some (["meta-field".toList], ["ws".toList]) := by decide
+theorem lineCheck_documentEnv : lineCheck "document ::= envelope-start ws meta-block ws content ws envelope-end".toList =
+    some (["document".toList], ["envelope-end", "ws", "content", "ws", "meta-block", "ws", "envelope-start"].map String.toList) := by decide +kernel
+theorem lineCheck_document : lineCheck "document ::= content".toList = some (["document".toList], ["content".toList]) := by decide
+theorem lineCheck_root : lineCheck "root ::= document".toList = some (["root".toList], ["document".toList]) := by decide
+
+theorem header_ok (name : Str) (h : (name.contains '\n' || name.contains '\r') = false) :
+    LineOK ("# GBNF Grammar for OCTAVE schema: ".toList ++ name) [] [] := by
+  have : "# GBNF Grammar for OCTAVE schema: ".toList ++ name = '#' :: (" GBNF Grammar for OCTAVE schema: ".toList ++ name) := by
+    simp
+  rw [this]
+  apply lineOK_comment
+  intro c hc
+  have hconst : ∀ c ∈ " GBNF Grammar for OCTAVE schema: ".toList, c ≠ '\n' ∧ c ≠ '\r' := by decide
+  rcases List.mem_append.mp hc with h1 | h1
+  · exact hconst c h1
+  · simp only [Bool.or_eq_false_iff] at h
+    constructor
+    · intro hh; subst hh; have := h.1; simp [List.contains_iff_mem] at this; exact this h1
+    · intro hh; subst hh; have := h.2; simp [List.contains_iff_mem] at this; exact this h1
+
+theorem fieldRefs_ok (names : List Str) (hne : names ≠ [])
+    (hw : ∀ r ∈ names, r ≠ [] ∧ ∀ c ∈ r, isWordChar true c = true) :
+    LineOK ("field ::= (".toList ++ List.intercalate " | ".toList names ++ ")".toList) ["field".toList] names.reverse := by
+  have := lineOK_refs "field".toList "field ::= (".toList names hne hw (fun toks => by
+    simp [lexStep, lexAction, lexTop, isWordChar, isLower, isUpper, isDigit])
+  simpa using this
+
+theorem envelopeStart_ok (upper : Str) (h : (upper.contains '"' || upper.contains '\\') = false) :
+    LineOK ("envelope-start ::= \"===".toList ++ upper ++ "===\"".toList) ["envelope-start".toList] [] := by
+  have hu : ∀ c ∈ upper, c ≠ '"' ∧ c ≠ '\\' := by
+    intro c hc
+    simp only [Bool.or_eq_false_iff] at h
+    constructor
+    · intro hh; subst hh; have := h.1; simp [List.contains_iff_mem] at this; exact this hc
+    · intro hh; subst hh; have := h.2; simp [List.contains_iff_mem] at this; exact this hc
+  exact lineOK_pastedLiteral "envelope-start".toList "envelope-start ::= \"===".toList "===".toList upper "===\"".toList hu
+    (fun toks => by simp [lexStep, lexAction, lexTop, isWordChar, isLower, isUpper, isDigit])
+    (fun acc toks => by simp [lexStep, lexAction, lexTop, isWordChar, isLower, isUpper, isDigit])
+
+/-! ## assembling the grammar -/
+
+abbrev LineSpec := Str × List Str × List Str
+def LineSpec.names (xs : List LineSpec) : List Str := xs.flatMap (fun x => x.2.1.reverse)
+def LineSpec.refs (xs : List LineSpec) : List Str := xs.flatMap (fun x => x.2.2.reverse)
+
+def blankSpec : LineSpec := ([], [], [])
+def headSpecs (name : Str) : List LineSpec :=
+  [("# GBNF Grammar for OCTAVE schema: ".toList ++ name, [], []), blankSpec,
+   ("ws ::= [ \\t\\n]*".toList, ["ws".toList], []), blankSpec]
+def tailSpecs : List LineSpec := [blankSpec, ("root ::= document".toList, ["root".toList], ["document".toList])]
+
+theorem blank_ok : LineOK blankSpec.1 blankSpec.2.1 blankSpec.2.2 := lineOK_of_check lineCheck_blank
+
+theorem assemble (name : Str) (hname : (name.contains '\n' || name.contains '\r') = false)
+    (xsF xsC xsD : List LineSpec)
+    (hF : ∀ x ∈ xsF, LineOK x.1 x.2.1 x.2.2) (hC : ∀ x ∈ xsC, LineOK x.1 x.2.1 x.2.2) (hD : ∀ x ∈ xsD, LineOK x.1 x.2.1 x.2.2)
+    (hnodup : (["ws".toList] ++ LineSpec.names xsF ++ (LineSpec.names xsC ++ LineSpec.names xsD ++ ["root".toList])).Nodup)
+    (hrefsF : ∀ r ∈ LineSpec.refs xsF, r = "ws".toList)
+    (hrefsC : ∀ r ∈ LineSpec.refs xsC, r ∈ ["ws".toList] ++ LineSpec.names xsF ++ LineSpec.names xsC)
+    (hrefsD : ∀ r ∈ LineSpec.refs xsD, r ∈ ["ws".toList] ++ LineSpec.names xsC ++ LineSpec.names xsD)
+    (hdoc : "document".toList ∈ LineSpec.names xsD) :
+    WellFormed true (List.intercalate ['\n']
+      ((headSpecs name ++ xsF ++ [blankSpec] ++ xsC ++ [blankSpec] ++ xsD ++ tailSpecs).map (·.1))) := by
+  have hnames : LineSpec.names (headSpecs name ++ xsF ++ [blankSpec] ++ xsC ++ [blankSpec] ++ xsD ++ tailSpecs) =
+      ["ws".toList] ++ LineSpec.names xsF ++ (LineSpec.names xsC ++ LineSpec.names xsD ++ ["root".toList]) := by
+    simp [LineSpec.names, headSpecs, tailSpecs, blankSpec, List.flatMap_append]
+  have hrefs : LineSpec.refs (headSpecs name ++ xsF ++ [blankSpec] ++ xsC ++ [blankSpec] ++ xsD ++ tailSpecs) =
+      LineSpec.refs xsF ++ LineSpec.refs xsC ++ LineSpec.refs xsD ++ ["document".toList] := by
+    simp [LineSpec.refs, headSpecs, tailSpecs, blankSpec, List.flatMap_append]
+  apply wellFormed_of_lines'
+  · simp [headSpecs]
+  · intro x hx
+    simp only [List.mem_append, List.mem_singleton] at hx
+    rcases hx with (((((h | h) | h) | h) | h) | h) | h
+    · simp only [headSpecs, List.mem_cons, List.not_mem_nil, or_false] at h
+      rcases h with h | h | h | h
+      · subst h; exact header_ok name hname
+      · subst h; exact blank_ok
+      · subst h; exact lineOK_of_check lineCheck_ws
+      · subst h; exact blank_ok
+    · exact hF x h
+    · subst h; exact blank_ok
+    · exact hC x h
+    · subst h; exact blank_ok
+    · exact hD x h
+    · simp only [tailSpecs, List.mem_cons, List.not_mem_nil, or_false] at h
+      rcases h with h | h
+      · subst h; exact blank_ok
+      · subst h; exact lineOK_of_check lineCheck_root
+  · show rootName ∈ LineSpec.names _
+    rw [hnames]; simp [rootName]
+  · intro r hr
+    show r ∈ LineSpec.names _
+    have hr' : r ∈ LineSpec.refs (headSpecs name ++ xsF ++ [blankSpec] ++ xsC ++ [blankSpec] ++ xsD ++ tailSpecs) := hr
+    rw [hrefs] at hr'
+    rw [hnames]
+    simp only [List.mem_append, List.mem_singleton] at hr' ⊢
+    rcases hr' with ((h | h) | h) | h
+    · left; left; exact hrefsF r h
+    · have := hrefsC r h
+      simp only [List.mem_append, List.mem_singleton] at this
+      rcases this with (h1 | h1) | h1
+      · left; left; exact h1
+      · left; right; exact h1
+      · right; left; left; exact h1
+    · have := hrefsD r h
+      simp only [List.mem_append, List.mem_singleton] at this
+      rcases this with (h1 | h1) | h1
+      · left; left; exact h1
+      · right; left; left; exact h1
+      · right; left; right; exact h1
+    · subst h; right; left; right; exact hdoc
+  · show (LineSpec.names _).Nodup
+    rw [hnames]; exact hnodup
+
+def allStructural : List Str :=
+  ["ws", "field", "content", "document", "root", "envelope-start", "envelope-end", "meta-block", "meta-content",
+   "meta-field"].map String.toList
+
+theorem ruleName_not_structural (fields : List Field) (h20 : KF_structural fields = false) :
+    ∀ x ∈ fields.map Field.ruleName, x ∉ allStructural := by
+  intro x hx hmem
+  obtain ⟨f, hf, hfx⟩ := List.mem_map.mp hx
+  subst hfx
+  have hnot : structuralNames.contains f.ruleName = false := by
+    simp only [KF_structural, List.any_eq_false] at h20
+    simpa using h20 f hf
+  have hdash : ∀ y ∈ allStructural, y ∉ structuralNames → '-' ∈ y := by decide
+  by_cases hs : f.ruleName ∈ structuralNames
+  · simp [List.contains_iff_mem, hs] at hnot
+  · have := hdash _ hmem hs
+    exact (sanitize_charset f.lowered '-' this).2 rfl
+
+def contentSpecs (F : List Str) : List LineSpec :=
+  if F.isEmpty then [("content ::= [^\\n]*".toList, ["content".toList], [])]
+  else [("field ::= (".toList ++ List.intercalate " | ".toList F ++ ")".toList, ["field".toList], F.reverse),
+        ("content ::= (field ws)*".toList, ["content".toList], ["ws".toList, "field".toList])]
+
+def docSpecs (upper : Str) (envelope : Bool) : List LineSpec :=
+  if envelope then
+    [("envelope-start ::= \"===".toList ++ upper ++ "===\"".toList, ["envelope-start".toList], []),
+     ("envelope-end ::= \"===END===\"".toList, ["envelope-end".toList], []), blankSpec,
+     ("meta-block ::= \"META:\" ws meta-content".toList, ["meta-block".toList], ["meta-content".toList, "ws".toList]),
+     ("meta-content ::= (meta-field ws)*".toList, ["meta-content".toList], ["ws".toList, "meta-field".toList]),
+     ("meta-field ::= [A-Z_]+ \"::\" ws [^\\n]+".toList, ["meta-field".toList], ["ws".toList]), blankSpec,
+     ("document ::= envelope-start ws meta-block ws content ws envelope-end".toList, ["document".toList],
+      ["envelope-end", "ws", "content", "ws", "meta-block", "ws", "envelope-start"].map String.toList)]
+  else [("document ::= content".toList, ["document".toList], ["content".toList])]
+
+theorem contentSpecs_ok (F : List Str) (hw : ∀ r ∈ F, r ≠ [] ∧ ∀ c ∈ r, isWordChar true c = true) :
+    ∀ x ∈ contentSpecs F, LineOK x.1 x.2.1 x.2.2 := by
+  intro x hx
+  unfold contentSpecs at hx
+  split at hx
+  · simp only [List.mem_singleton] at hx; subst hx; exact lineOK_of_check lineCheck_content0
+  · rename_i hne
+    simp only [List.mem_cons, List.not_mem_nil, or_false] at hx
+    rcases hx with h | h
+    · subst h; exact fieldRefs_ok F (by intro h; simp [h] at hne) hw
+    · subst h; exact lineOK_of_check lineCheck_content1
+
+theorem docSpecs_ok (upper : Str) (envelope : Bool)
+    (h : (envelope && (upper.contains '"' || upper.contains '\\')) = false) :
+    ∀ x ∈ docSpecs upper envelope, LineOK x.1 x.2.1 x.2.2 := by
+  intro x hx
+  unfold docSpecs at hx
+  cases envelope with
+  | false =>
+    simp only [Bool.false_eq_true, if_false, List.mem_singleton] at hx
+    subst hx; exact lineOK_of_check lineCheck_document
+  | true =>
+    simp only [if_true, List.mem_cons, List.not_mem_nil, or_false] at hx
+    simp only [Bool.true_and] at h
+    rcases hx with h1 | h1 | h1 | h1 | h1 | h1 | h1 | h1
+    · subst h1; exact envelopeStart_ok upper h
+    · subst h1; exact lineOK_of_check lineCheck_envEnd
+    · subst h1; exact blank_ok
+    · subst h1; exact lineOK_of_check lineCheck_metaBlock
+    · subst h1; exact lineOK_of_check lineCheck_metaContent
+    · subst h1; exact lineOK_of_check lineCheck_metaField
+    · subst h1; exact blank_ok
+    · subst h1; exact lineOK_of_check lineCheck_documentEnv
+
+/-- the text `compile_schema` returns, line by line -/
+theorem compileSchema_lines (name upper : Str) (fields : List Field) (envelope : Bool) (xsF : List LineSpec)
+    (hfl : fieldLines fields = some (xsF.map (·.1))) :
+    compileSchema name upper fields envelope = some (List.intercalate ['\n']
+      ((headSpecs name ++ xsF ++ [blankSpec] ++ contentSpecs (fields.map Field.ruleName) ++ [blankSpec] ++
+        docSpecs upper envelope ++ tailSpecs).map (·.1))) := by
+  obtain ⟨h1, _, h3, h4, h5, h6, h7, h8, h9, h10, h11⟩ := gen_schema_templates
+  unfold compileSchema schemaLines contentLines documentLines
+  rw [hfl, h1, h3, h4, h5, h6, h7, h8, h9, h10, h11]
+  have e : "\n".toList = ['\n'] := by decide
+  rw [e]
+  simp only [Option.map_some]
+  congr 2
+  cases envelope <;> cases hF : (fields.map Field.ruleName).isEmpty <;>
+    simp [headSpecs, tailSpecs, blankSpec, contentSpecs, docSpecs, render, hF]
+
+theorem names_contentSpecs (F : List Str) :
+    LineSpec.names (contentSpecs F) = if F.isEmpty then ["content".toList] else ["field".toList, "content".toList] := by
+  unfold contentSpecs LineSpec.names
+  split <;> simp
+
+theorem refs_contentSpecs (F : List Str) :
+    LineSpec.refs (contentSpecs F) = if F.isEmpty then [] else F ++ ["field".toList, "ws".toList] := by
+  unfold contentSpecs LineSpec.refs
+  split <;> simp
+
+theorem names_docSpecs (upper : Str) (envelope : Bool) :
+    LineSpec.names (docSpecs upper envelope) =
+      if envelope then ["envelope-start", "envelope-end", "meta-block", "meta-content", "meta-field", "document"].map String.toList
+      else ["document".toList] := by
+  unfold docSpecs LineSpec.names
+  split <;> simp [blankSpec]
+
+theorem refs_docSpecs (upper : Str) (envelope : Bool) :
+    LineSpec.refs (docSpecs upper envelope) =
+      if envelope then ["ws", "meta-content", "meta-field", "ws", "ws", "envelope-start", "ws", "meta-block", "ws", "content", "ws",
+        "envelope-end"].map String.toList
+      else ["content".toList] := by
+  unfold docSpecs LineSpec.refs
+  split <;> simp [blankSpec]
+
+/-- **C12 (partial).**  For every schema name, every list of fields (any names, any chains of the 13
+constraint kinds plus unknown ones) and **both envelope settings**, `compile_schema` returns a text, and
+that text is well-formed GBNF under the lenient rule-name alphabet (`_` allowed) — it parses, defines
+`root`, defines every rule it references, defines no rule twice, has no unterminated literal or class and
+no empty alternative — provided the input lies outside the recorded finding classes:
+F20 (a field named like a structural rule), F21 (two fields with the same sanitised name), F22 (a REGEX
+pattern that is pasted rather than translated), C12N1 (quote/backslash in a field name), C12N2 (line
+break / quote / backslash in the schema name).  `SchemaOK` says only what the reader guarantees (an ENUM
+has a member).
+
+*Partial*: the five hypotheses are genuine defects of the code (negative theorems below); under the strict
+llama.cpp alphabet `[a-zA-Z0-9-]` the statement is false whenever a rule name contains `_` (F23). -/
+theorem C12_wellformed_partial (name upper : Str) (fields : List Field) (envelope : Bool)
+    (hok : SchemaOK fields = true)
+    (h20 : KF_structural fields = false) (h21 : ¬ KF_collision fields) (h22 : KF_regexPaste fields = false)
+    (hN1 : KF_fieldNameUnescaped fields = false) (hN2 : KF_schemaNameUnescaped name upper envelope = false) :
+    ∃ text, compileSchema name upper fields envelope = some text ∧ WellFormed true text := by
+  obtain ⟨xsF, hfl, hallF, hnamesF, hrefsF⟩ := fieldLines_ok fields hok h22 hN1
+  refine ⟨_, compileSchema_lines name upper fields envelope xsF hfl, ?_⟩
+  simp only [KF_schemaNameUnescaped, Bool.or_eq_false_iff] at hN2
+  have hF : LineSpec.names xsF = fields.map Field.ruleName := hnamesF
+  have hw : ∀ r ∈ fields.map Field.ruleName, r ≠ [] ∧ ∀ c ∈ r, isWordChar true c = true := by
+    intro r hr
+    obtain ⟨f, _, hfr⟩ := List.mem_map.mp hr
+    subst hfr
+    exact ⟨sanitize_nonempty f.lowered, fun c hc => (sanitize_charset f.lowered c hc).1⟩
+  have hns := ruleName_not_structural fields h20
+  have hnd : (fields.map Field.ruleName).Nodup := Classical.not_not.mp h21
+  apply assemble name (by rw [hN2.1.1, hN2.1.2]; rfl) xsF (contentSpecs (fields.map Field.ruleName)) (docSpecs upper envelope)
+    hallF (contentSpecs_ok _ hw) (docSpecs_ok upper envelope hN2.2)
+  · -- no rule is defined twice
+    rw [hF, names_contentSpecs, names_docSpecs]
+    apply nodup_insert_middle _ _ _ hnd
+    · cases envelope <;> cases (fields.map Field.ruleName).isEmpty <;> decide
+    · intro x hx hmem
+      refine hns x hx ?_
+      have hsub : ∀ (b1 b2 : Bool), ∀ y ∈ ["ws".toList] ++ ((if b1 then ["content".toList] else ["field".toList, "content".toList]) ++
+          (if b2 then ["envelope-start", "envelope-end", "meta-block", "meta-content", "meta-field", "document"].map String.toList
+            else ["document".toList]) ++ ["root".toList]), y ∈ allStructural := by decide
+      exact hsub _ _ x hmem
+  · exact hrefsF
+  · -- references of the field / content rules
+    intro r hr
+    rw [refs_contentSpecs] at hr
+    rw [hF, names_contentSpecs]
+    split at hr
+    · simp at hr
+    · rename_i hne
+      simp only [hne, Bool.false_eq_true, if_false]
+      simp only [List.mem_append, List.mem_cons, List.not_mem_nil, or_false] at hr ⊢
+      rcases hr with h | h | h
+      · left; right; exact h
+      · right; left; exact h
+      · left; left; exact h
+  · -- references of the document rules
+    intro r hr
+    rw [refs_docSpecs] at hr
+    rw [names_contentSpecs, names_docSpecs]
+    cases envelope <;> cases (fields.map Field.ruleName).isEmpty <;> revert r <;> decide
+  · rw [names_docSpecs]; cases envelope <;> decide
+
+/-! ## the executable verdict used by the driver is the specification -/
+
+theorem dupsOf_isEmpty_iff : ∀ (l : List Str), (dupsOf l).isEmpty = true ↔ l.Nodup := by
+  intro l
+  induction l with
+  | nil => simp [dupsOf]
+  | cons n r ih =>
+    simp only [dupsOf, List.nodup_cons]
+    by_cases h : r.contains n = true
+    · simp only [h, if_true, List.isEmpty_cons, Bool.false_eq_true, false_iff, not_and]
+      intro hn; exact absurd (by simpa [List.contains_iff_mem] using h) hn
+    · simp only [h, Bool.false_eq_true, if_false, ih]
+      constructor
+      · intro hr; exact ⟨by simpa [List.contains_iff_mem] using h, hr⟩
+      · intro hr; exact hr.2
+
+theorem wellFormedB_iff (len : Bool) (text : Str) : wellFormedB len text = true ↔ WellFormed len text := by
+  unfold wellFormedB WellFormed
+  cases hp : parse len text with
+  | none => simp
+  | some g =>
+    simp only [Grammar.wellFormedB, Bool.and_eq_true, List.all_eq_true, Option.some.injEq, exists_eq_left']
+    rw [dupsOf_isEmpty_iff]
+    simp [List.contains_iff_mem, and_assoc]
+
+/-! ## totality -/
+
+theorem compileConstraint_total (c : Constraint) : ∃ frag, compileConstraint c = some frag := by
+  cases c <;> simp [compileConstraint, gen_dispatch, lookupMethod, Constraint.kind, runMethod]
+
+/-- **C12_compile_total.**  `compile_schema` returns a text for every schema (no constraint object makes
+a `_compile_*` method raise: the dispatch sends each class to the method that reads its own attributes). -/
+theorem C12_compile_total (name upper : Str) (fields : List Field) (envelope : Bool) :
+    ∃ text, compileSchema name upper fields envelope = some text := by
+  have hfl : ∃ ls, fieldLines fields = some ls := by
+    induction fields with
+    | nil => exact ⟨[], rfl⟩
+    | cons f r ih =>
+      obtain ⟨ls, hls⟩ := ih
+      have hp : ∃ pat, fieldPattern f = some pat := by
+        unfold fieldPattern
+        cases f.chain with
+        | none => exact ⟨_, rfl⟩
+        | some cs =>
+          simp only
+          unfold compileChain
+          cases deciding cs with
+          | none => exact ⟨_, rfl⟩
+          | some c => exact compileConstraint_total c
+      obtain ⟨pat, hpat⟩ := hp
+      exact ⟨render Gen.schemaFieldRuleTpl [f.ruleName, f.name, pat] :: ls, by simp [fieldLines, fieldLine, hpat, hls]⟩
+  obtain ⟨ls, hls⟩ := hfl
+  simp [compileSchema, schemaLines, hls]
+
+/-! ## the META.CONTRACT route -/
+
+/-- **C12_contract_route.**  `compile_gbnf_from_meta` (CONTRACT given as the parser's token list) is
+`compile_schema` with envelope of the schema whose fields are rebuilt from the tokens
+(`_reconstruct_field_specs_from_tokens`, `parse_contract_field`, dict insertion) — so
+`C12_wellformed_partial` applies to it verbatim. -/
+theorem C12_contract_route (env : Env) (type upper : Str) (toks : List CTok) (fs : List Field)
+    (h : contractFields env (reconstruct toks) [] = some fs) :
+    compileMetaTokens env type upper toks = some (compileSchema type upper fs true) := by
+  simp [compileMetaTokens, compileMeta, h]
+
+theorem C12_contract_wellformed_partial (env : Env) (type upper : Str) (toks : List CTok) (fs : List Field)
+    (h : contractFields env (reconstruct toks) [] = some fs)
+    (hok : SchemaOK fs = true) (h20 : KF_structural fs = false) (h21 : ¬ KF_collision fs)
+    (h22 : KF_regexPaste fs = false) (hN1 : KF_fieldNameUnescaped fs = false)
+    (hN2 : KF_schemaNameUnescaped type upper true = false) :
+    ∃ text, compileMetaTokens env type upper toks = some (some text) ∧ WellFormed true text := by
+  obtain ⟨text, ht, hwf⟩ := C12_wellformed_partial type upper fs true hok h20 h21 h22 hN1 hN2
+  exact ⟨text, by rw [C12_contract_route env type upper toks fs h, ht], hwf⟩
+
+/-- the fields dict never holds a name twice: collisions (F21) are between *different* field names -/
+theorem dictSet_names_nodup (f : Field) : ∀ (l : List Field), (l.map (·.name)).Nodup → ((dictSet f l).map (·.name)).Nodup := by
+  intro l
+  induction l with
+  | nil => intro _; simp [dictSet]
+  | cons g r ih =>
+    intro h
+    simp only [dictSet]
+    split
+    · rename_i heq
+      have : g.name = f.name := by simpa using heq
+      simpa [this] using h
+    · rename_i hne
+      have hne' : g.name ≠ f.name := by simpa using hne
+      simp only [List.map_cons, List.nodup_cons] at h ⊢
+      refine ⟨?_, ih h.2⟩
+      intro hmem
+      obtain ⟨x, hx, hxn⟩ := List.mem_map.mp hmem
+      have : ∀ (l : List Field) (x : Field), x ∈ dictSet f l → x = f ∨ x ∈ l := by
+        intro l
+        induction l with
+        | nil => intro x hx; simp [dictSet] at hx; exact Or.inl hx
+        | cons a t iht =>
+          intro x hx
+          simp only [dictSet] at hx
+          split at hx
+          · rcases List.mem_cons.mp hx with h1 | h1
+            · exact Or.inl h1
+            · exact Or.inr (by simp [h1])
+          · rcases List.mem_cons.mp hx with h1 | h1
+            · exact Or.inr (by simp [h1])
+            · rcases iht x h1 with h2 | h2
+              · exact Or.inl h2
+              · exact Or.inr (by simp [h2])
+      rcases this r x hx with h1 | h1
+      · subst h1; exact hne' hxn.symm
+      · exact h.1 (List.mem_map.mpr ⟨x, h1, hxn⟩)
+
+/-! ## non-vacuity: a schema that meets every hypothesis -/
+
+def exampleFields : List Field :=
+  [⟨"STATUS".toList, "status".toList, some [.req, .enum ["ACTIVE".toList, "PAUSED".toList]]⟩,
+   ⟨"A.B".toList, "a.b".toList, some [.opt, .regex "^[a-z]+$".toList]⟩,
+   ⟨"naïve".toList, "naïve".toList, some [.const "a\"b\\c".toList]⟩,
+   ⟨"WHEN".toList, "when".toList, some [.iso8601]⟩, ⟨"N".toList, "n".toList, some [.type "NUMBER".toList]⟩,
+   ⟨"X".toList, "x".toList, none⟩]
+
+example : SchemaOK exampleFields = true ∧ KF_structural exampleFields = false ∧ ¬ KF_collision exampleFields ∧
+    KF_regexPaste exampleFields = false ∧ KF_fieldNameUnescaped exampleFields = false ∧
+    KF_schemaNameUnescaped "Session Log".toList "SESSION LOG".toList true = false := by
+  refine ⟨by decide, by decide, ?_, by decide, by decide, by decide⟩
+  unfold KF_collision; decide
+example : (compileSchema "Session Log".toList "SESSION LOG".toList exampleFields true).map (wellFormedB true) = some true := by
+  decide +kernel
+example : (compileSchema "S".toList "S".toList [] false).map (wellFormedB true) = some true := by decide +kernel
+
+/-! ## negative theorems: the finding classes are genuine (witnesses replayed on the real code by the check) -/
+
+def illFormed (len : Bool) (o : Option Str) : Prop := ∃ text, o = some text ∧ ¬ WellFormed len text
+
+theorem illFormed_of_B {len : Bool} {o : Option Str} (h : o.map (wellFormedB len) = some false) : illFormed len o := by
+  cases o with
+  | none => simp at h
+  | some t =>
+    refine ⟨t, rfl, ?_⟩
+    rw [← wellFormedB_iff]
+    simpa using h
+
+/-- **F20**: a field called CONTENT defines the rule `content` twice. -/
+theorem F20_structural_name_witness :
+    KF_structural [⟨"CONTENT".toList, "content".toList, some [.req]⟩] = true ∧
+    illFormed true (compileSchema "S".toList "S".toList [⟨"CONTENT".toList, "content".toList, some [.req]⟩] false) :=
+  ⟨by decide, illFormed_of_B (by decide +kernel)⟩
+
+/-- **F21**: `A.B` and `A_DOT_B` are both sanitised to `a_dot_b`, which is then defined twice. -/
+theorem F21_collision_witness :
+    KF_collision [⟨"A.B".toList, "a.b".toList, some [.req]⟩, ⟨"A_DOT_B".toList, "a_dot_b".toList, some [.opt]⟩] ∧
+    illFormed true (compileSchema "S".toList "S".toList
+      [⟨"A.B".toList, "a.b".toList, some [.req]⟩, ⟨"A_DOT_B".toList, "a_dot_b".toList, some [.opt]⟩] false) :=
+  ⟨by unfold KF_collision; decide, illFormed_of_B (by decide +kernel)⟩
+
+/-- **F22**: `REGEX["^abc$"]` is pasted as `abc`, a reference to a rule that is not defined. -/
+theorem F22_regex_paste_witness :
+    KF_regexPaste [⟨"P".toList, "p".toList, some [.regex "^abc$".toList]⟩] = true ∧
+    illFormed true (compileSchema "S".toList "S".toList [⟨"P".toList, "p".toList, some [.regex "^abc$".toList]⟩] false) :=
+  ⟨by decide, illFormed_of_B (by decide +kernel)⟩
+
+/-- **F23**: under llama.cpp's own name alphabet `[a-zA-Z0-9-]` the grammar of a schema with a field
+`OPTIONAL_FIELD` (rule `optional_field`) does not parse, although it is well-formed when `_` is admitted. -/
+theorem F23_strict_alphabet_witness :
+    illFormed false (compileSchema "S".toList "S".toList [⟨"OPTIONAL_FIELD".toList, "optional_field".toList, some [.opt]⟩] false) ∧
+    (compileSchema "S".toList "S".toList [⟨"OPTIONAL_FIELD".toList, "optional_field".toList, some [.opt]⟩] false).map (wellFormedB true) = some true :=
+  ⟨illFormed_of_B (by decide +kernel), by decide +kernel⟩
+
+/-- **C12N1**: a field name containing a backslash is pasted unescaped into the rule's literal. -/
+theorem C12N1_field_name_witness :
+    KF_fieldNameUnescaped [⟨"\"a\\b\"".toList, "\"a\\b\"".toList, some [.req]⟩] = true ∧
+    illFormed true (compileSchema "S".toList "S".toList [⟨"\"a\\b\"".toList, "\"a\\b\"".toList, some [.req]⟩] true) :=
+  ⟨by decide, illFormed_of_B (by decide +kernel)⟩
+
+/-- **C12N2**: a schema name with a quote breaks the `envelope-start` literal; one with a line break ends
+the header comment. -/
+theorem C12N2_schema_name_witness :
+    KF_schemaNameUnescaped "a\"b".toList "A\"B".toList true = true ∧
+    illFormed true (compileSchema "a\"b".toList "A\"B".toList [⟨"STATUS".toList, "status".toList, some [.req]⟩] true) ∧
+    KF_schemaNameUnescaped "a\nb".toList "A\nB".toList false = true ∧
+    illFormed true (compileSchema "a\nb".toList "A\nB".toList [⟨"STATUS".toList, "status".toList, some [.req]⟩] false) :=
+  ⟨by decide, illFormed_of_B (by decide +kernel), by decide, illFormed_of_B (by decide +kernel)⟩
 
 end Octave.C12
